@@ -124,6 +124,19 @@ prop(
     thorough=dict(checks=12000, shards=16),
 )
 
+prop(
+    "C20",
+    title="Validation accessors are lossless and the clear operations are exact",
+    technique="model-based property testing (rapid): generated operation sequences (set / with / get / clear-family with 0-3 callbacks) on each carrier, compared after every step with a reference model that is a plain map keyword -> value; plus a deterministic sweep over presence subsets of the 15 validation keywords",
+    rule="carriers: Schema, Parameter, Header, Items, bare CommonValidations and SchemaValidations, each filled with sentinel values in all non-validation fields (vocabulary generator); validation sets draw each of the 15 keywords independently with values including 0, empty and non-empty enum / patternProperties; sequences of 1-6 operations. Sweep: presence subsets of the 15 keywords (all 2^15 in the thorough tier, every 8th in quick) x 6 carriers through a fixed 7-operation sequence and 4 orders of the clear operations. Non-trivial = some written set is neither empty nor full or holds a zero value; distinct by hash of the case",
+    exhaustive_note="thorough tier: all 2^15 presence subsets of the validation keywords x 6 carriers; quick tier: a 1/8 sample of them (exhaustive=false)",
+    design_ref="DESIGN.md §4 C20",
+    level_text="exploration with an exhaustive sub-space in the thorough tier: after every operation the validations readable back, the Has* queries, the encoded members and every non-validation field are compared with the model; callbacks must receive exactly the (keyword, previous value) pairs of the members that were set, once each; clears must commute",
+    level_note="'set' means: pointer non-nil, boolean true, string non-empty, slice/map non-nil - the representation the accessors themselves use; simple carriers ignore the three object validations, as documented",
+    quick=dict(checks=1500, shards=4),
+    thorough=dict(checks=20000, shards=16),
+)
+
 
 def manifest():
     allids = []
